@@ -2,7 +2,7 @@
 // K-lbl: Labels::load_from_strings control flow on concrete lines that never reach the jlabel parser
 // (C17): blank lines are skipped, two tokens without a label are an error value, no panic.
 //@harness name=blank_lines_are_skipped tier=quick label=bounded(concrete-lines) props=C17 timeout=600
-// harness (NOT REGISTERED: reaching the MissingLabel branch first parses two f64 tokens; dec2flt exhausts 12 GB under CBMC) name=two_times_without_label_is_an_error
+//@harness name=two_times_without_label_is_an_error tier=quick label=bounded(concrete-lines,multibyte-text) props=C17 timeout=900
 use super::*;
 
 #[kani::proof]
@@ -17,11 +17,18 @@ fn blank_lines_are_skipped() {
     std::mem::forget(r);
 }
 
+/// two tokens and no label: the error value MissingLabel, whatever the text is (the check for the third token comes
+/// before any number is parsed); a long line of multi-byte characters must not be cut inside a character
 #[kani::proof]
-#[kani::unwind(6)]
+#[kani::unwind(48)]
 fn two_times_without_label_is_an_error() {
     let lines = ["", "0 5"];
     let r = Labels::load_from_strings(48000, 240, &lines);
     assert!(matches!(r, Err(LabelError::MissingLabel(_))));
     std::mem::forget(r);
+    // 3 ASCII bytes followed by 17 two-byte characters (37 bytes)
+    let long = ["0 5\u{e9}\u{e9}\u{e9}\u{e9}\u{e9}\u{e9}\u{e9}\u{e9}\u{e9}\u{e9}\u{e9}\u{e9}\u{e9}\u{e9}\u{e9}\u{e9}\u{e9}"];
+    let r2 = Labels::load_from_strings(48000, 240, &long);
+    assert!(matches!(r2, Err(LabelError::MissingLabel(_))));
+    std::mem::forget(r2);
 }
